@@ -3,6 +3,7 @@ package rag
 import (
 	"fmt"
 	"strings"
+	"unicode/utf8"
 )
 
 // SizeUnit defines the unit of measurement for chunk sizes
@@ -496,6 +497,11 @@ func findWordBoundaryNear(text string, targetPos int) int {
 		}
 	}
 
+	// No break opportunity nearby: fall back to the target position, backed up
+	// to the start of a UTF-8 sequence so that no character is cut in half.
+	for targetPos > 0 && !utf8.RuneStart(text[targetPos]) {
+		targetPos--
+	}
 	return targetPos
 }
 
